@@ -36,7 +36,7 @@ Counter(h, k, hi, lo) ==
     ELSE LET c == h[k] IN
          CASE c.kind = "S" -> (IF c.ok THEN {} ELSE {"C09.UnexpectedFailure"}) \cup Counter(h, k + 1, 0, 0)
            [] c.kind = "R" -> (IF ~c.ok /\ c.rejected THEN {} ELSE {"C09.RejectedKind"}) \cup Family(c) \cup Counter(h, k + 1, hi + 1, lo)
-           [] c.kind = "F" -> (IF ~c.ok /\ c.failed THEN {} ELSE {"C09.FailedKind"}) \cup Family(c)
+           [] c.kind \in {"F", "E"} -> (IF ~c.ok /\ c.failed THEN {} ELSE {"C09.FailedKind"}) \cup Family(c)
                               \cup (IF c.failed /\ (c.cfc < lo + 1 \/ c.cfc > hi + 1) THEN {"C09.Counter"} ELSE {})
                               \cup Counter(h, k + 1, hi + 1, lo + 1)
 
